@@ -46,6 +46,12 @@ let () =
   let path = Sys.argv.(1) in
   let ic = open_in path in
   let ncases = ref 0 and nops = ref 0 and mism = ref 0 and viol = ref 0 in
+  let oracle = ref (if Array.length Sys.argv > 2 then Sys.argv.(2) else "none") in
+  let last_r = ref "" and last_info = ref "" and last_op = ref ("", "", "") in
+  let total = ref [] and cap = ref Z0 and case_viol = ref false and compressing_case = ref false in
+  let accepted_all_docs = ref [] in
+  let case_tag = ref "-" in
+  let accepted = ref [] and all_accepted = ref true and last_wd = ref None and case_kind = ref "" in
   let st = ref None in
   let case_id = ref "" in
   let json_kind = ref false in
@@ -64,10 +70,24 @@ let () =
     match split_ws lhs with
     | "CASE" :: id :: kind :: n :: _wrapper :: rest ->
         incr ncases; case_id := id; case_bad := false;
+        last_r := ""; last_info := ""; last_op := ("", "", ""); total := []; case_viol := false;
+        accepted := []; all_accepted := true; last_wd := None; case_kind := kind; accepted_all_docs := [];
+        compressing_case := List.mem kind ["base"; "batch"; "dyn"; "stream"; "sdyn"];
+        cap := (if kind = "base" then zadd (z_of_string n) (z_of_int 1) else z_of_string n);
         json_kind := (String.length kind >= 4 && String.sub kind (String.length kind - 4) 4 = "uncj");
         let faults = match rest with f :: _ -> parse_faults f | [] -> [] in
+        case_tag := (match rest with _ :: t :: _ -> t | _ -> "-");
         st := Some (x_new (kind_of_string kind) (z_of_string n), empty_writer faults)
-    | ["END"] -> st := None
+    | ["END"] ->
+        (if !oracle = "c08" && !case_tag = "acceptall-" && (!case_kind = "dyn" || !case_kind = "sdyn") && not !case_viol then
+           match !last_wd with
+           | Some wd ->
+               if not (c08_ok !cap !accepted_all_docs !all_accepted wd) then begin
+                 incr viol;
+                 Printf.printf "VIOL case=%s c08_ok=false accepted_all=%b sizes=%s expected=%s\n" !case_id !all_accepted
+                   (join_z wd.dc_sizes) (join_z (expected_sizes !cap !accepted_all_docs)) end
+           | None -> ());
+        st := None
     | "NOTE" :: what :: _ ->
         incr viol; Printf.printf "VIOL case=%s line=%d %s\n" !case_id !ln what
     | tag :: args ->
@@ -78,6 +98,9 @@ let () =
              let do_step o = let (s', ob) = x_step s o in st := Some s'; ob in
              (match tag, args with
               | "A", [h] ->
+                  last_op := ("A", h, rhs);
+                  (match parse_doc h with Some d -> accepted_all_docs := !accepted_all_docs @ [d] | None -> ());
+                  all_accepted := !all_accepted && rhs = "ok";
                   (match parse_doc h with
                    | None -> mismatch "input-doc-unparsable-by-model" h ""
                    | Some d ->
@@ -85,8 +108,13 @@ let () =
                         | BAdd r -> if ares_string r <> rhs then mismatch "add" rhs (ares_string r)
                         | _ -> ()))
               | "B", [_] -> (* unreadable input: rejected, state unchanged *)
-                  if rhs <> "other" then mismatch "add-unreadable" rhs "other"
-              | "R", [] ->
+                  last_op := ("B", "", rhs);
+                  (match do_step OAddBad with
+                   | BAdd r -> let m = (match r with RFlush -> "flush" | _ -> "other") in
+                       if rhs <> m then mismatch "add-unreadable" rhs m
+                   | _ -> ())
+              | ("R" | "r"), [] ->
+                  last_r := rhs;
                   (match do_step OResolve with
                    | BResolve None -> if rhs <> "none" then mismatch "resolve" rhs "none"
                    | BResolve (Some o) ->
@@ -95,16 +123,19 @@ let () =
                          (if not (String.length rhs > 2 && String.sub rhs 0 2 = "j:") then mismatch "resolve-flavour" rhs m)
                        else if norm_impl_out rhs <> m then mismatch "resolve" (norm_impl_out rhs) m
                    | _ -> ())
-              | "X", [] -> ignore (do_step OReset)
+              | "X", [] -> last_op := ("X", "", ""); ignore (do_step OReset)
               | "F", [] ->
+                  last_op := ("F", "", rhs);
                   (match do_step OFlush with
                    | BFlush ok -> if (if ok then "ok" else "err") <> rhs then mismatch "flush" rhs (if ok then "ok" else "err")
                    | _ -> ())
               | "M", [h] ->
+                  last_op := ("M", h, rhs);
                   (match parse_doc h with
                    | None -> mismatch "meta-doc-unparsable-by-model" h ""
                    | Some d -> ignore (do_step (OSetMeta (Some d))); if rhs <> "ok" then mismatch "setmeta" rhs "ok")
-              | "I", [] ->
+              | ("I" | "i"), [] ->
+                  (match split_ws rhs with [_; sc] -> last_info := sc | _ -> ());
                   (match do_step OInfo with
                    | BInfo (m, sc) ->
                        let ms = string_of_z m ^ " " ^ string_of_z sc in
@@ -119,7 +150,45 @@ let () =
                   let iw = match split_ws rhs with _calls :: l -> List.map norm_impl_out l | [] -> [] in
                   let mw' = List.map (fun m -> if String.length m > 0 && m.[0] = 'J' then "J" else m) mw in
                   let iw' = List.map (fun m -> if String.length m > 1 && String.sub m 0 2 = "j:" then "J" else m) iw in
-                  if mw' <> iw' then mismatch "writer-log" (String.concat " " iw') (String.concat " " mw')
+                  if mw' <> iw' then mismatch "writer-log" (String.concat " " iw') (String.concat " " mw');
+                  if !oracle <> "none" && !compressing_case then begin
+                    (* decode the implementation's own outputs with the model reader *)
+                    let dec_impl (outs : string list) : decoded option =
+                      let decode_ftdc = x_decode_ftdc in
+                      let docs = List.concat_map (fun o ->
+                          if String.length o > 2 && String.sub o 0 2 = "b:" then
+                            (match dec_docs (bytes_of_hex (String.sub o 2 (String.length o - 2))) with
+                             | Some ds -> ds | None -> raise Exit)
+                          else raise Exit) outs in
+                      decode_ftdc docs in
+                    let impl_w = match split_ws rhs with _ :: l -> l | [] -> [] in
+                    let wd = (try dec_impl impl_w with Exit -> None) in
+                    let rd = if !last_r = "none" || !last_r = "" then Some { dc_docs = []; dc_sizes = []; dc_metas = [] }
+                      else (try dec_impl [!last_r] with Exit -> None) in
+                    (match wd, rd with
+                     | Some wd, Some rd ->
+                         let (opn, h, res) = !last_op in
+                         let (k, addok, d) = match opn with
+                           | "A" -> (KAdd, res = "ok", (match parse_doc h with Some d -> d | None -> []))
+                           | "B" -> (KAdd, false, [])
+                           | "X" -> (KReset, false, []) | "F" -> (KFlush, false, []) | "M" -> (KSetMeta, false, [])
+                           | _ -> (KInfo, false, []) in
+                         if opn = "A" && res = "ok" then accepted := !accepted @ [d];
+                         if opn = "X" then accepted := [];
+                         let (total', ok) = c07_step !cap !total k addok d wd rd (z_of_string (if !last_info = "" then "0" else !last_info)) in
+                         total := total';
+                         if not ok && not !case_viol then begin
+                           case_viol := true; incr viol;
+                           Printf.printf "VIOL case=%s line=%d c07_ok=false after op %s: decoded(writer)=%d docs, decoded(resolve)=%d docs, expected total=%d, info=%s sizes=%s cap=%s\n"
+                             !case_id !ln opn (List.length wd.dc_docs) (List.length rd.dc_docs) (List.length total') !last_info
+                             (join_z (wd.dc_sizes @ rd.dc_sizes)) (string_of_z !cap) end;
+                         last_wd := Some wd;
+                         last_op := ("-", "", "")
+                     | _ ->
+                         if not !case_viol then begin
+                           case_viol := true; incr viol;
+                           Printf.printf "VIOL case=%s line=%d implementation output not decodable\n" !case_id !ln end)
+                  end
               | _ -> failwith ("bad op line: " ^ line)))
     | [] -> ()
   done with End_of_file -> ());
